@@ -386,7 +386,13 @@ def term_tag(t, names):
 def subst_items(tag, sub):
     if isinstance(tag, tuple):
         if tag[0] == 'atom': return sub.get(tag[1], tag)
-        if tag[0] == 'app': return fold_fstring(('app', tag[1], tuple(subst_items(a, sub) for a in tag[2])))
+        if tag[0] == 'app':
+            args = tuple(subst_items(a, sub) for a in tag[2]); f = tag[1]
+            native = [const_of(a)[0] for a in args]
+            if (f.startswith('un:') and native[0]) or (f.startswith('bin:') and all(native)) or (f in CMPSYM.values() and native[0]) \
+                    or (f.startswith('attr:') and native[0]) or (f == 'subscr' and native[0]) or (f.startswith('call') and native[0]) or (f == 'in' and native[1]):
+                raise SkipValidation('operator applied to a constant operand is computed by CPython itself')
+            return fold_fstring(('app', f, args))
     return tag
 
 
@@ -506,7 +512,7 @@ def explore(runners, limit=256):
 
 # ------------------------------------------------------------------------------------------------ programs
 def wrap(kind, e, loopvar='x'):
-    if kind == 'cond': return '(%s for %s in %s if %s)' % (loopvar, loopvar, FIRST_ITER, e)
+    if kind == 'cond': return '(%s for %s in %s if (%s))' % (loopvar, loopvar, FIRST_ITER, e)
     if kind == 'elt': return '((%s) for %s in %s)' % (e, loopvar, FIRST_ITER)
     return 'lambda: (%s)' % e
 
@@ -589,7 +595,10 @@ def judge(p, reply, limit=256):
     code, kind, names = p['code'], p['kind'], p['names']
     tree = reply.get('code_tree')
     sub = loop_item_names(code)
-    nonec = {subst_items(t, sub or {}) for t in tree_queries(tree, names, set())} if tree else set()
+    nonec = set()
+    for t in (tree_queries(tree, names, set()) if tree else ()):
+        try: nonec.add(subst_items(t, sub or {}))
+        except SkipValidation: pass
     validate = tree is not None and not reply.get('code_stuck')
     res['model_unsupported'] = bool(reply.get('code_stuck')) or tree is None
     runners = [lambda a: real_run(code, kind, a, nonec)]
@@ -654,3 +663,133 @@ def show_tag(t):
         if t[0] == 'item': return 'item' + '.'.join(str(x) for x in t[1:])
         if t[0] == 'app': return '%s(%s)' % (t[1], ', '.join(show_tag(a) for a in t[2]))
     return repr(t)
+
+
+# ------------------------------------------------------------------------------------------------ the grammar that is enumerated
+UNARY = {'not': 'not %s', 'neg': '-%s', 'attr': '%s.p', 'call1': 'f(%s)', 'isnone': '%s is None', 'isnotnone': '%s is not None'}
+BINARY = {'and': '%s and %s', 'or': '%s or %s', 'eq': '%s == %s', 'lt': '%s < %s', 'add': '%s + %s', 'in': '%s in %s', 'sub': '%s[%s]',
+          'callkw': 'f(%s, k=%s)'}
+TERNARY = {'ife': '%s if %s else %s', 'chain': '%s < %s <= %s', 'slice': '%s[%s:%s]'}
+ATOMS = 'abcdeghjklmn'
+
+
+def render(e):
+    k = e[0]
+    if k == 'a': return e[1]
+    if k == 'lit': return e[1]
+    parts = tuple(render(c) if c[0] in ('a', 'lit') else '(%s)' % render(c) for c in e[1:])
+    if k in UNARY: return UNARY[k] % parts
+    if k in BINARY: return BINARY[k] % parts
+    if k in TERNARY:
+        if k == 'ife': return TERNARY[k] % (parts[1], parts[0], parts[2])     # ('ife', test, body, orelse)
+        return TERNARY[k] % parts
+    raise ValueError(k)
+
+
+def shapes(n, memo={}):
+    """all expression trees with n nodes, leaves are placeholders"""
+    if n in memo: return memo[n]
+    out = []
+    if n == 1: out.append(('a', None))
+    else:
+        for u in UNARY:
+            out += [(u, c) for c in shapes(n - 1)]
+        for i in range(1, n - 1):
+            for b in BINARY:
+                out += [(b, l, r) for l in shapes(i) for r in shapes(n - 1 - i)]
+        for i in range(1, n - 2):
+            for j in range(1, n - 1 - i):
+                k = n - 1 - i - j
+                if k < 1: continue
+                for t in TERNARY:
+                    out += [(t, x, y, z) for x in shapes(i) for y in shapes(j) for z in shapes(k)]
+    memo[n] = out
+    return out
+
+
+def count_leaves(e):
+    return 1 if e[0] == 'a' else sum(count_leaves(c) for c in e[1:])
+
+
+def label(e, names):
+    """fill the placeholders from the iterator `names`"""
+    if e[0] == 'a': return ('a', next(names))
+    return (e[0],) + tuple(label(c, names) for c in e[1:])
+
+
+def growth_strings(m, maxatoms):
+    """restricted growth strings: atoms are introduced in the order a, b, c, ... (every expression up to renaming of atoms, once)"""
+    def rec(prefix, used):
+        if len(prefix) == m: yield prefix; return
+        for k in range(min(used + 1, maxatoms)):
+            yield from rec(prefix + [k], max(used, k + 1))
+    return rec([], 0)
+
+
+def enumerate_exprs(n, maxatoms):
+    for sh in shapes(n):
+        for g in growth_strings(count_leaves(sh), maxatoms):
+            yield label(sh, iter(ATOMS[k] for k in g))
+
+
+def canon_rename(e):
+    m = {}
+    def rec(e):
+        if e[0] == 'a':
+            if e[1] not in m: m[e[1]] = ATOMS[len(m)]
+            return ('a', m[e[1]])
+        if e[0] == 'lit': return e
+        return (e[0],) + tuple(rec(c) for c in e[1:])
+    return rec(e)
+
+
+def pretty(e):
+    return ast.unparse(ast.parse(render(e), mode='eval'))
+
+
+def subtrees_replacements(e):
+    """candidate smaller expressions: a subtree replaced by one of its children or by a fresh atom"""
+    out = []
+    def rec(e, rebuild):
+        if e[0] in ('a', 'lit'): return
+        for c in e[1:]:
+            out.append(rebuild(c))
+        out.append(rebuild(('a', 'z')))
+        for i, c in enumerate(e[1:], 1):
+            rec(c, lambda x, i=i, e=e, rebuild=rebuild: rebuild(e[:i] + (x,) + e[i + 1:]))
+    rec(e, lambda x: x)
+    return sorted(set(out), key=lambda x: (tree_size(x), repr(x)))
+
+
+def tree_size(e):
+    return 1 if e[0] in ('a', 'lit') else 1 + sum(tree_size(c) for c in e[1:])
+
+
+def violates(kind, e):
+    """property oracle alone (no driver): does the real decompiler change the meaning of this expression in this position?"""
+    try:
+        p = prepare(wrap(kind, render(e)))
+    except Exception:
+        return None
+    if p['node'] is None: return None
+    j = judge(p, {}, limit=512)
+    return j if j['violation'] else None
+
+
+def shrink(kind, e):
+    cur = e; curj = violates(kind, e)
+    if curj is None: return e, None
+    changed = True
+    while changed:
+        changed = False
+        for cand in subtrees_replacements(cur):
+            if tree_size(cand) >= tree_size(cur): continue
+            j = violates(kind, cand)
+            if j is not None:
+                cur, curj, changed = cand, j, True
+                break
+    return canon_rename(cur), curj
+
+
+def violation_key(kind, e):
+    return '%s:%s' % (kind, pretty(canon_rename(e)))
